@@ -382,10 +382,8 @@ func c11ParserWiring(r *Run) {
 		cc := c.(*ast.CaseClause)
 		if cc.List == nil {
 			for _, st := range cc.Body {
-				if as, ok := st.(*ast.AssignStmt); ok {
-					if _, fld := fieldOf(info, as.Lhs[0]); fld == pm.errorsF {
-						defaultErr = true
-					}
+				if stmtsRecordError(pm, st, 0) {
+					defaultErr = true
 				}
 			}
 			continue
